@@ -9,6 +9,25 @@ VALUE_KINDS = {"value-violates-constraint", "value-outside-type", "formula-misma
 OUTCOME_KINDS = {"unsat-returned-normally", "spurious-solve-failure", "other-exception", "formula-unsat-but-ref-sat"}
 FRAME_KINDS = {"nonrandom-field-changed", "nonrandom-field-changed-on-failure"}
 IDLE_KINDS = {"stacks-not-idle"}
+LIST_KINDS = {"list-views-disagree", "list-edit-mismatch", "fixed-list-length-changed"}
+
+
+def _lists_of(prog, st, prefix=()):
+    """(path, decl) of every list field in the object tree"""
+    out = []
+    for fd in R.all_fields(prog, st["cls"]):
+        if fd["k"] == "list":
+            out.append((tuple(prefix) + (fd["n"],), fd))
+        elif fd["k"] == "obj":
+            out.extend(_lists_of(prog, st["f"][fd["n"]], tuple(prefix) + (fd["n"],)))
+    return out
+
+
+def _snap_alt(snap, path):
+    o = snap
+    for p in path[:-1]:
+        o = o["f"][p] if isinstance(o, dict) and "f" in o else o[p]
+    return o["alt"].get(path[-1]), o["f"].get(path[-1])
 
 
 def all_leaves(prog, st):
@@ -25,8 +44,31 @@ def judge(spec, decide, callbacks=False, per_call=None, max_points=None, m2=True
     side = []     # (kind, msg) other observations
     nontrivial = False
     max_points = max_points or spec.get("max_points", 1024)
+    edit_bad = []
+
+    def on_event(sess_, ev_):
+        # C04: appending / extending / assigning / clearing acts on exactly the exposed list
+        k = ev_["op"]["op"]
+        if k in ("l_append", "l_clear", "l_assign", "l_extend"):
+            inst_ = ev_["op"].get("o", "o0")
+            try:
+                snap = sess_.snapshot(inst_)
+                got = snap_get(snap, ev_["op"]["path"])
+                alt, _ = _snap_alt(snap, tuple(ev_["op"]["path"]))
+                exp = R.get_at(sess_.state[inst_], ev_["op"]["path"])
+                if exp and isinstance(exp[0], dict):
+                    ok = len(got) == len(exp)
+                else:
+                    ok = list(got) == list(exp)
+                if alt is not None and (alt[0] != len(exp) or alt[1] != len(exp)):
+                    ok = False
+                if not ok:
+                    edit_bad.append((ev_, "after %s the list reads %r (len %s, size %s) but should be %r" % (
+                        SC.src_op(ev_["op"]), got, alt[0] if alt else "?", alt[1] if alt else "?", exp)))
+            except Exception as e:   # a read path that raises after an edit is also an observation
+                edit_bad.append((ev_, "after %s reading the list raised %r" % (SC.src_op(ev_["op"]), e)))
     try:
-        sess, evs = SC.run(spec, callbacks=callbacks)
+        sess, evs = SC.run(spec, callbacks=callbacks, on_event=on_event)
     except R.Corner as c:
         reset_lib_state()
         return {"status": common.INCONC, "kind": "corner-at-build", "msg": str(c)}
@@ -37,8 +79,22 @@ def judge(spec, decide, callbacks=False, per_call=None, max_points=None, m2=True
         (viol if kind in decide else side).append((kind, msg, cur[0]))
         cnt.inc("obs_" + kind)
 
+    failed = set()
+    for ev in evs:
+        inst_ = ev["op"].get("o", "o0")
+        if SC.is_call(ev) and ev.get("outcome") != "ok":
+            failed.add(inst_)
+        elif inst_ in failed:
+            ev["_failed_before"] = True
+        if SC.is_call(ev) and inst_ in failed and ev.get("outcome") == "ok":
+            ev["_failed_before"] = True
+    for ev_, msg_ in edit_bad:
+        cur[0] = ev_
+        add("list-edit-mismatch", msg_)
     for ev in evs:
         if not SC.is_call(ev):
+            if ev["op"]["op"] in ("l_append", "l_clear", "l_assign", "l_extend"):
+                cnt.inc("list_edits")
             continue
         cnt.inc("calls")
         cur[0] = ev
@@ -78,6 +134,24 @@ def judge(spec, decide, callbacks=False, per_call=None, max_points=None, m2=True
                     add("nonrandom-field-changed" if oc == "ok" else "nonrandom-field-changed-on-failure",
                         "%s changed %s from %r to %r although it is not random in this call (outcome %s)" % (
                             head, ".".join(map(str, p)), a, b, oc))
+        # --- list views (C04): len(), size, iteration and indexing agree; fixed-size lists keep their length
+        if ev.get("post") is not None and call.target == ():
+            for lp, fd in _lists_of(sess.prog, call.root):
+                try:
+                    alt, vals = _snap_alt(ev["post"], lp)
+                    _, pre_vals = _snap_alt(ev["pre"], lp)
+                except Exception:
+                    continue
+                if alt is None:
+                    continue
+                cnt.inc("list_views_checked")
+                ln, sz, indexed = alt
+                if not (ln == sz == len(vals)) or (indexed is not None and list(indexed) != list(vals)):
+                    add("list-views-disagree", "%s: list %s: len()=%s size=%s iteration=%r indexing=%r" % (
+                        head, ".".join(map(str, lp)), ln, sz, vals, indexed))
+                if not fd.get("rsz") and pre_vals is not None and len(pre_vals) != len(vals):
+                    add("fixed-list-length-changed", "%s: fixed-size list %s changed length %d -> %d" % (
+                        head, ".".join(map(str, lp)), len(pre_vals), len(vals)))
         # --- values
         if oc == "ok":
             cnt.inc("calls_ok")
